@@ -1,0 +1,166 @@
+//go:build verif
+
+package zygo
+
+import (
+	"bufio"
+	"sort"
+)
+
+// Hooks for the deterministic-simulation harness in /verif.
+// Compiled only with -tags verif; the shipped build is unaffected.
+
+// VerifStepHook, when non-nil, is called before every VM instruction
+// of every (nested) Run loop. A non-nil error aborts that Run exactly
+// as an instruction error would.
+var VerifStepHook func(env *Zlisp) error
+
+func (env *Zlisp) verifStep() error {
+	if VerifStepHook != nil {
+		return VerifStepHook(env)
+	}
+	return nil
+}
+
+// VerifDepthInfo is a read-only snapshot of the VM's control state.
+type VerifDepthInfo struct {
+	Data      int
+	Scope     int
+	Addr      int
+	Loop      int
+	InMain    bool
+	Pc        int
+	MainLen   int
+	AtEnd     bool
+	ScopeName []string
+}
+
+func (env *Zlisp) VerifDepths() VerifDepthInfo {
+	d := VerifDepthInfo{
+		Data:    env.datastack.Size(),
+		Scope:   env.linearstack.Size(),
+		Addr:    env.addrstack.Size(),
+		InMain:  env.curfunc == env.mainfunc,
+		Pc:      env.pc,
+		MainLen: len(env.mainfunc.fun),
+	}
+	if env.loopstack != nil {
+		d.Loop = env.loopstack.Size()
+	}
+	d.AtEnd = env.ReachedEnd()
+	for i := 0; i < env.linearstack.Size(); i++ {
+		switch s := env.linearstack.elements[i].(type) {
+		case *Scope:
+			d.ScopeName = append(d.ScopeName, s.Name)
+		default:
+			d.ScopeName = append(d.ScopeName, "?")
+		}
+	}
+	return d
+}
+
+// VerifGlobalNames returns the sorted names bound in the global scope.
+func (env *Zlisp) VerifGlobalNames() []string {
+	glob := env.linearstack.elements[0].(*Scope)
+	names := make([]string, 0, len(glob.Map))
+	for num := range glob.Map {
+		names = append(names, env.revsymtable[num])
+	}
+	sort.Strings(names)
+	return names
+}
+
+// VerifGlobal returns the value bound to name in the global scope.
+func (env *Zlisp) VerifGlobal(name string) (Sexp, bool) {
+	num, ok := env.symtable[name]
+	if !ok {
+		return nil, false
+	}
+	glob := env.linearstack.elements[0].(*Scope)
+	v, ok := glob.Map[num]
+	return v, ok
+}
+
+// VerifSymtab returns copies of the (shared) symbol tables and this
+// interpreter's private counter.
+func (env *Zlisp) VerifSymtab() (fwd map[string]int, rev map[int]string, next int) {
+	fwd = make(map[string]int, len(env.symtable))
+	for k, v := range env.symtable {
+		fwd[k] = v
+	}
+	rev = make(map[int]string, len(env.revsymtable))
+	for k, v := range env.revsymtable {
+		rev[k] = v
+	}
+	return fwd, rev, env.nextsymbol
+}
+
+func (env *Zlisp) VerifMacroNames() []string {
+	names := make([]string, 0, len(env.macros))
+	for num := range env.macros {
+		names = append(names, env.revsymtable[num])
+	}
+	sort.Strings(names)
+	return names
+}
+
+func (env *Zlisp) VerifBuiltinNames() []string {
+	names := make([]string, 0, len(env.builtins))
+	for num := range env.builtins {
+		names = append(names, env.revsymtable[num])
+	}
+	sort.Strings(names)
+	return names
+}
+
+func (env *Zlisp) VerifParser() *Parser { return env.parser }
+
+// VerifLexInfo is a read-only snapshot of lexer/parser pause state.
+type VerifLexInfo struct {
+	State         int
+	BufLen        int
+	QueuedTokens  int
+	QueuedStreams int
+	HasStream     bool
+	Suspended     bool
+	Recur         int64
+	InBacktick    bool
+	Linenum       int
+}
+
+func (p *Parser) VerifLexState() VerifLexInfo {
+	lx := p.lexer
+	return VerifLexInfo{
+		State:         int(lx.state),
+		BufLen:        lx.buffer.Len(),
+		QueuedTokens:  len(lx.tokens),
+		QueuedStreams: len(lx.next),
+		HasStream:     lx.stream != nil,
+		Suspended:     p.next != nil,
+		Recur:         p.recur,
+		InBacktick:    p.inBacktick,
+		Linenum:       lx.linenum,
+	}
+}
+
+// VerifReplRead runs the REPL's own line reader (the production client of
+// the pausable parser) over a caller-supplied terminal.
+func (env *Zlisp) VerifReplRead(reader *bufio.Reader) (string, []Sexp, error) {
+	pr := &Prompter{prompt: ""}
+	return pr.getExpressionWithLiner(env, reader, true)
+}
+
+// VerifHashInfo exposes the three redundant pieces of bookkeeping in a hash.
+type VerifHashInfo struct {
+	NumKeys     int
+	KeyOrderLen int
+	BucketPairs int
+}
+
+func (h *SexpHash) VerifInternals() VerifHashInfo {
+	n := 0
+	for _, b := range h.Map {
+		n += len(b)
+	}
+	return VerifHashInfo{NumKeys: h.NumKeys, KeyOrderLen: len(h.KeyOrder), BucketPairs: n}
+}
